@@ -39,6 +39,34 @@ CHECKS = {
         "The node's input is the same backend's evaluation of the prefix (self-consistent oracle); reference aggregate functions in mc/refmodel.py are trusted for the windowed values.",
         "DESIGN.md 3/C09",
     ),
+    "C11": (
+        "model_checking",
+        "explicit-state BFS over the real builder; every explored pipeline paired with every single-step mutant; search for structurally different pipelines that compare ==",
+        "Every pipeline reachable in <= 2 builder calls (core menu + record maps) is paired with every single-step mutant of its history (all other same-kind menu entries at that position, literal type variants, window/join/concat option variants, 5 record-map layouts) and with 3 table-description variants: == must be symmetric, != its negation, an independent rebuild must be ==, and any pair that compares == while structurally different must give the same Pandas result on every small input and character-identical SQL in all five dialects.",
+        "Structural difference is decided by mc/hist.canon (finer than ==). Only single-step mutants are paired.",
+        "DESIGN.md 3/C11",
+    ),
+    "C12": (
+        "model_checking",
+        "explicit-state BFS over the real builder + exhaustive Term-API expression-tree family; print / re-evaluate / pickle round trip with structural and behavioural comparison",
+        "Every pipeline reachable in <= 2 builder calls (core menu, record maps, tuple-key joins) and every tree of a ~25k-member expression family built through the Term API (unary minus, powers, negative constants, %, //, comparisons, and/or/not, if_else/where, 13 hostile string constants in literals, ==, is_in, mapv keys/values, concat, coalesce; lists; dicts) is round-tripped through to_python(pretty=False), repr() (black) and pickle; the rebuilt pipeline must be == to the original and either structurally identical or give identical results.",
+        "Trees are built through the Term API, so shapes the parser never emits are included; the family is one-sided at depth 2.",
+        "DESIGN.md 3/C12",
+    ),
+    "C13": (
+        "model_checking",
+        "exhaustive enumeration of all expression texts of a Python-like grammar up to an operator bound; parse tree evaluated node-by-node vs CPython eval on an operand grid; print/re-parse equality",
+        "All ~110k texts with <= 2 operator applications (15 binary operators, unary -, +, not, .abs(), .maximum(), atoms x y 2 0.5, with and without parentheses) plus all un-parenthesised 3-operator chains over every operator triple are parsed by the real parser; each accepted tree is evaluated with Python's own operators and compared with CPython's eval of the same text on the 36-point grid x,y in {-2..3}; every accepted text must also print to a text that parses back to an equal tree.",
+        "The meaning of a tree is its node-by-node evaluation with Python operators; rows where CPython raises, where and/or/not meet a non-boolean, or where an eagerly evaluated sub-expression is undefined are excluded and counted.",
+        "DESIGN.md 3/C13",
+    ),
+    "C26": (
+        "model_checking",
+        "explicit-state BFS over the real builder; every prefix state x a menu of single-rule violations and conforming twins; accept/reject verdict per documented rule",
+        "Every prefix reachable in <= 2 builder calls (plus prefixes the builder simplifies away) is extended by ~60 menu entries, each instantiating one documented construction rule or its nearest conforming twin (unknown column per operator, changed partition/order/group column, use-and-produce vs self-update, non-aggregating / compound / nested project and window expressions, join key presence, common non-key columns with and without the check, concat column sets); the builder must raise exactly on the rule violations.",
+        "Verdicts come from the menu (mc/props/c26.py rule_menu), i.e. from the rule each entry instantiates; rules the statement does not list are not in the menu.",
+        "DESIGN.md 3/C26",
+    ),
     "C20": (
         "model_checking",
         "explicit-state BFS over operation histories of the real DataModelSpace and DBSpace (fresh object rebuilt per history), dict reference model in lock-step, state merging on the model state",
